@@ -80,6 +80,9 @@ BREAK = {
         (['C06.e'], FR, "        if frag_offset == 0:\n            reassm.first_frag = ctr.bundle", "        if reassm.first_frag is None:\n            reassm.first_frag = ctr.bundle"),
     ],
     'C07': [
+        (['C07.a'], S, "            if self._tls_attempt:\n                if self.__rx_buf:\n", "            if self._tls_attempt or self._config.tls_enable:\n                if self.__rx_buf:\n"),
+        (['C07.b'], 'tcpcl/cmd.py', "    logging.basicConfig(\n", "    from scapy.config import conf\n    conf.debug_dissector = True\n    logging.basicConfig(\n"),
+        (['C07.d'], M, "    def post_dissection(self, pkt):\n        ''' remove padding from payload list after disect() completes '''\n", "    def pre_dissect(self, s):\n        if len(s) < 3:\n            raise formats.VerifyError('Message too short')\n        return s\n\n    def post_dissection(self, pkt):\n        ''' remove padding from payload list after disect() completes '''\n"),
         (['C07.a'], S, "        while sock is self.__s_tls and sock.pending() > 0:\n            data = sock.recv(self.CHUNK_SIZE)\n            if not data:\n                break\n            self.recv_raw(data)\n", ""),
         (['C07.b'], 'tcpcl/contact.py', "        if len(s) < len(MAGIC_HEAD) + 1:\n            raise formats.VerifyError('Contact header too short')\n", ""),
         (['C07.b'], 'tcpcl/contact.py', "        if not self.payload:\n            raise formats.VerifyError('Contact header without payload')\n", ""),
@@ -91,6 +94,11 @@ BREAK = {
         (['C07.c'], M, "        formats.verify_sized_item(self.length, self.getfieldval('data'))\n", ""),
     ],
     'C08': [
+        (['C08.e'], 'scapy_cbor/fields.py', "        if not isinstance(lst, (list, tuple)):\n            # a byte string also iterates as integers\n            raise DecodeError('Item for {} is not an array: {!r}'.format(self.name, lst))\n", ""),
+        (['C08.e'], 'scapy_cbor/fields.py', "(isinstance(s[0], bool) or not isinstance(s[0], int))", "(not isinstance(s[0], int))"),
+        (['C08.e'], 'scapy_cbor/fields.py', "        if s and s[0] is not None and not isinstance(s[0], bytes):\n            raise DecodeError('Item for {} is not a byte string: {!r}'.format(self.name, s[0]))\n", ""),
+        (['C08.e'], 'bp/encoding/fields.py', "        if isinstance(scheme_type, bool) or not isinstance(scheme_type, int):", "        if not isinstance(scheme_type, int):"),
+        (['C08.e'], 'bp/encoding/fields.py', "        if not isinstance(x, (list, tuple)):\n            # a byte string also indexes as integers\n            raise ValueError('EID is not an array')\n", ""),
         (['C08.d'], BL, "    def do_dissect_payload(self, s):\n        ''' All items of a block array are fields of the block. '''\n        if s:\n            raise ValueError('Block array has {} extra items'.format(len(s)))\n\n", ""),
         (['C08.d'], 'scapy_cbor/packets.py', "                if buf.tell() != len(s):\n                    # what follows the item would be silently lost\n                    raise ValueError('Extra data after the CBOR item')\n", ""),
         (['C08.a'], BA, "        ctr.bundle.update_all_crc()\n\n", "\n"),
@@ -115,6 +123,8 @@ BREAK = {
         (['C09.g'], 'tcpcl/agent.py', "        for hdl in tuple(self._handlers):\n            hdl.close()", "        for hdl in self._handlers:\n            hdl.close()"),
     ],
     'C10': [
+        (['C10.c'], 'bp/config.py', "                            self.rx_route_table.append(RxRouteItem(", "                            self.rx_route_table.insert(0, RxRouteItem("),
+        (['C10.c'], 'bp/config.py', "                                action=item['action'],\n", "                                action=item.get('action', 'deliver'),\n"),
         (['C10.b'], BU, "        if pri.bundle_flags & PrimaryBlock.Flag.IS_FRAGMENT:\n            # fragments with the same offset can differ in extent\n", "        if True:\n"),
         (['C10.b'], BU, "                len(pyld_data) if pyld_data is not None else 0,\n", ""),
         (['C10.c'], BA, "            if match is not None:\n                found = item\n                break\n        if found:\n            self._logger.debug('Route found: %s', found)\n            ctr.record_action(found.action)", "            if match is not None:\n                found = item\n        if found:\n            self._logger.debug('Route found: %s', found)\n            ctr.record_action(found.action)"),
@@ -122,6 +132,7 @@ BREAK = {
         (['C10.e'], BA, "        ctr.record_action('receive')\n", "        ctr.actions['receive'] = None\n"),
     ],
     'C11': [
+        (['C11.c'], BA, "            for blk in ctr.block_type(HopCountBlock):\n", "            for blk in ctr.block_type(HopCountBlock)[:1]:\n"),
         (['C11.b'], BA, "                # re-encode the block data from the updated payload\n                blk.delfieldval('btsd')\n", ""),
         (['C11.c'], BA, "            for blk in list(ctr.block_type(6)):", "            for blk in ctr.block_type(6):"),
         (['C11.c'], BA, "            for blk in list(ctr.block_type(6)):", "            for blk in list(ctr.block_type(PreviousNodeBlock)):"),
@@ -144,6 +155,10 @@ BREAK = {
         (['C12.f'], SEC, "                    LOGGER.error('Failed to verify BIB in block num %s with context %s: %s', bib.block_num, bib.payload.context_id, err)\n                    result = StatusReport.ReasonCode.FAILED_SEC", "                    result = 'Failed to verify BIB: {}'.format(err)"),
     ],
     'C13': [
+        (['C13.b'], UA, "                pri_item.sender(pri_dgram)\n                self.tok_avail -= need\n", "                pri_item.sender(pri_dgram)\n                self.tok_avail -= need\n                self.cur_dgram = None\n"),
+        (['C13.e'], UA, "        buf = BufferedReader(BytesIO(data))\n", "        data = data.rstrip(b'\\x00')\n        buf = BufferedReader(BytesIO(data))\n"),
+        (['C13.e'], UA, "        datalen = 64 * 1024\n        anclen = 0", "        datalen = 1500\n        anclen = 0"),
+        (['C13.e'], UA, "        data = conn.read(64 * 1024)", "        data = conn.read(self._config.mtu_default or 65536)"),
         (['C13.e'], UA, "                msg_data = data[off_start:off_end]", "                msg_data = data[off_start:]"),
         (['C13.a'], UA, "        if mtu is None or len(data) <= mtu:", "        if mtu is None or len(data) <= 2 * mtu:"),
         (['C13.a'], UA, "        if mtu is None or len(data) <= mtu:", "        if mtu is None or len(data) < mtu:"),
@@ -170,6 +185,9 @@ BREAK = {
         (['C15.b'], S, "                if self.__rx_buf:\n                    # nothing in the clear may follow the contact header,\n                    # it would be taken for part of the secured stream\n                    self._logger.error('Unsecured data before TLS handshake')\n                    self.close()\n                    return\n", ""),
     ],
     'C16': [
+        (['C16.e'], SEC, "                if not isinstance(param.value, bytes):\n                    raise ValueError('Additional protected parameter is not a byte string')\n", ""),
+        (['C16.f'], SEC, "            for blk_num in target_block_nums:\n                sop = copy.copy(sop)\n", "            sop = copy.copy(sop)\n            for blk_num in target_block_nums:\n"),
+        (['C16.e'], SEC, "                self.addl_protected = bytes(param.value)\n", "                self.addl_protected = cbor2.dumps(cbor2.loads(bytes(param.value)))\n"),
         (['C16.c'], SEC, "            elif isinstance(msg_obj, EncMessage):", "            elif isinstance(msg_obj, MacMessage):"),
         (['C16.a'], SEC, "                    msg_dec = cbor2.loads(msg_enc)\n                    tgt_blk.setfieldval('btsd', msg_dec[2])\n                    # a parsed payload would put the plaintext back\n                    # when the block is built\n                    tgt_blk.remove_payload()\n                    msg_dec[2] = None\n\n                elif keyops.WrapOp", "                    msg_dec = cbor2.loads(msg_enc)\n                    msg_dec[2] = None\n\n                elif keyops.WrapOp"),
         (['C16.a'], SEC, "                    tgt_blk.remove_payload()\n                    msg_dec[2] = None\n\n                elif keyops.WrapOp", "                    msg_dec[2] = None\n\n                elif keyops.WrapOp"),
@@ -210,6 +228,8 @@ BREAK = {
         (['C19.d'], BA, "                    # the step took over transmission (e.g. sent fragments)\n                    self._logger.debug('Step %5.1f interrupted the chain', step.order)\n                    return", "                    self._logger.debug('Step %5.1f interrupted the chain', step.order)\n                    break"),
     ],
     'C20': [
+        (['C20.g'], BT, "        item.transfer_id = copy.copy(self._rx_id)\n        self._rx_id += 1\n", "        item.transfer_id = copy.copy(self._rx_id)\n"),
+        (['C20.f'], BT, "        self._recv_msg(sock, frame.payload.load, conv)", "        self._recv_msg(sock, frame.payload.load.rstrip(b'\\x00'), conv)"),
         (['C20.b'], BT, "        if mtu is None or total_len <= (mtu - 4):", "        if mtu is None or total_len <= mtu:"),
         (['C20.b'], BT, "            if total_len > 0xFFFFF:\n                # the message length field has 20 bits\n                raise RuntimeError('Bundle size {} too large for one message'.format(total_len))\n", ""),
         (['C20.d'], BT, "                    if xfer.timeout_id is not None:\n                        glib.source_remove(xfer.timeout_id)\n                    xfer.timeout_id = glib.timeout_add(RX_XFER_TIMEOUT_MS, self._rx_progress_cancel, key)", "                    glib.timeout_add(RX_XFER_TIMEOUT_MS, self._rx_progress_cancel, key)"),
@@ -226,6 +246,9 @@ BREAK = {
         (['C02.d'], BN, "    def self_build(self, field_pos_list=None):\n        # Special handling for admin payload\n        self._update_from_admin()\n", "    def self_build(self, field_pos_list=None):\n"),
     ],
     'C03': [
+        (['C03.g'], SEC, "                if not isinstance(param.value, dict):\n                    raise ValueError('AAD scope parameter is not a map')\n", ""),
+        (['C03.g'], SEC, "        if not isinstance(msg_enc, bytes):\n            raise ValueError('Result value is not a byte string')\n", ""),
+        (['C03.g'], SEC, "                self.aad_scope = dict(param.value)\n", "                self.aad_scope = {k: v & 3 for (k, v) in dict(param.value).items()}\n"),
         (['C03.a'], SEC, "        msg_obj.external_aad = self.get_external_aad()\n", ""),
         (['C03.b'], SEC, "        aad_data = self.ssrc_enc + aad_scope_enc", "        aad_data = aad_scope_enc"),
         (['C03.c'], SEC, "            LOGGER.debug('%s', traceback.format_exc())\n            valid = False\n\n        if valid:", "            LOGGER.debug('%s', traceback.format_exc())\n            valid = True\n\n        if valid:"),
@@ -236,8 +259,8 @@ BREAK = {
 # behaviour-preserving text edits: (file, old, new)
 BENIGN = {
     'C01': [(S, "        data = self.__tx_buf[:size]\n        if data:", "        chunk = self.__tx_buf[:size]\n        data = chunk\n        if data:"),
-            (S, "        if flags & messages.TransferSegment.Flag.START:\n            self._rx_setup(transfer_id, None)\n\n        elif self._rx_tmp is None or self._rx_tmp.transfer_id != transfer_id:",
-                "        if flags & messages.TransferSegment.Flag.START:\n            self._rx_setup(transfer_id, None)\n\n        elif not (self._rx_tmp is not None and self._rx_tmp.transfer_id == transfer_id):")],
+            (S, "            self._rx_setup(transfer_id, None)\n\n        elif self._rx_tmp is None or self._rx_tmp.transfer_id != transfer_id:",
+                "            self._rx_setup(transfer_id, None)\n\n        elif not (self._rx_tmp is not None and self._rx_tmp.transfer_id == transfer_id):")],
     'C04': [(S, "        if not self._in_sess:\n            raise RuntimeError('Cannot terminate while not in session')\n        if self._in_term:\n            raise RuntimeError('Already in terminating state')",
                 "        if not self._in_sess or self._in_term:\n            raise RuntimeError('Cannot terminate now')")],
     'C08': [(BA, "        data = bytes(ctr.bundle)\n        self._logger.info('send_bundle size %d', len(data))", "        encoded = bytes(ctr.bundle)\n        data = encoded\n        self._logger.info('send_bundle size %d', len(data))")],
